@@ -242,4 +242,7 @@ def run(ctx, idx):
     rule_b(ctx, idx, A, errcls)
     rule_c(ctx, idx, A, errcls)
     rule_d(ctx, idx, A)
+    from .C01 import rule_e
+
+    rule_e(ctx, idx, A, rule="C14.e", text="Restated here because the re-entry guard can only fire on a reference that is actually read: a cycle closed through an input the consumer skips (a zero weight, a short-circuit over the list) is never entered and the cyclic model runs to completion.")
     ctx.count("functions", len(idx.funcs))
